@@ -171,7 +171,7 @@ PROPS["C07"] = dict(
         ("c07_no_limit_step", "no LIMIT"), ("c07_aggregate_result_truncated", "batch aggregate: final table cut to n rows")]] + [
         H("c07_select_distinct3_limit2", "execution", EX, shape="real SelectExecutionEngine, DISTINCT LIMIT 2, rows x, x, y", tier="thorough", timeout=1800, env_stubbed=True, cost=900)],   # 800-900 s: thorough tier only
     functions=["ExecutionEngine::execute (Select arm, aggregate_result arm), update_limit (src/execution/execution_engine.rs)",
-               "SelectExecutionEngine::execute + DistinctValues::add (src/execution/select_execution.rs, helpers.rs): a duplicate does not use up the LIMIT (c07_select_distinct3_limit2)"],
+               "SelectExecutionEngine::execute + DistinctValues::add (src/execution/select_execution.rs, helpers.rs): a duplicate does not use up the LIMIT (c07_select_distinct3_limit2, thorough tier only)"],
     bounds={"n": "any u8", "rows handed out before": "any count allowed by the protocol (< n, or 0 for n = 0)", "rows per line": "0..1, each NULL-only or not (join fan-out of 2+ rows per line needs unwind 3+, which does not conclude: outside the bound); final aggregate table: 0..2 rows", "step": "one line from an arbitrary reachable LIMIT state (inductive)"},
     stubs=_ENGINE_STUBS,
     assumptions=["the executor offers another line only while reached_limit has not been reported (FileExecutor / FollowFileExecutor loops: see C12 when registered)",
